@@ -5,13 +5,14 @@ of 1/2 by doubling, None as 100000, strings from a fixed sorted pool as 200000+i
 Values that are `==` in Python (True, 1, 1.0) share a code, which is how the model
 treats constants; *values* additionally carry a type tag.
 """
+import os
 import sys
 from collections.abc import Callable, Container, Iterable
 from typing import Hashable  # the object standard_predicates.py uses
 from datetime import datetime
 from uuid import UUID
 
-sys.path.insert(0, "/repo")
+sys.path.insert(0, os.environ.get("PYPRED_REPO", "/repo"))
 
 from predicate import (  # noqa: E402
     AllPredicate,
